@@ -21,6 +21,9 @@ type C15Scenario struct {
 	Seeds  []uint64
 	Spaced bool
 	Wrap   string `json:",omitempty"` // "" top level | func | computed | nested (function called from a computed value)
+	// Switches: roll modes set one after the other on ONE long-lived VM ("" random, "min", "max"), the
+	// expression evaluated under each: a host that asks "what is the range of this roll" on its VM
+	Switches []string `json:",omitempty"`
 }
 
 func c15Gen(seed uint64, tier string) any {
@@ -65,6 +68,11 @@ func c15Gen(seed uint64, tier string) any {
 	sc.Const = int64(r.Range(0, 20))
 	for i := 0; i < 6; i++ {
 		sc.Seeds = append(sc.Seeds, r.U64())
+	}
+	if r.Chance(1, 2) {
+		for i := r.Range(2, 5); i > 0; i-- {
+			sc.Switches = append(sc.Switches, Pick(r, []string{"", "min", "max", "min", "max"}))
+		}
 	}
 	return sc
 }
@@ -118,6 +126,11 @@ func c15Eval(expr string, mode string, seed uint64, force func(int64) int64, m *
 	cfg := CfgSpec{WoD: true, CoC: true, Fate: true, DC: true, Seeded: true, SeedA: seed, SeedB: seed ^ 0x77, Min: mode == "min", Max: mode == "max", DefaultSide: c15DefaultSide}
 	ResetGlobals(seed)
 	vm := cfg.NewVM()
+	return c15EvalOn(vm, expr, force, m)
+}
+
+// c15EvalOn evaluates on a given VM under whatever roll mode its configuration holds now.
+func c15EvalOn(vm *ds.Context, expr string, force func(int64) int64, m *Meter) c15Run {
 	before, _ := vm.GetCurSeed()
 	gBefore := ds.VerifGlobalState()
 	m.Reset()
@@ -163,7 +176,7 @@ func c15Exec(raw json.RawMessage, res *RunResult) {
 	if len(sc.Terms) > 1 {
 		before := len(res.Violations)
 		for i := range sc.Terms {
-			one := C15Scenario{Terms: []DiceSpec{sc.Terms[i]}, Coefs: []int64{1}, Seeds: sc.Seeds, Spaced: sc.Spaced, Wrap: sc.Wrap}
+			one := C15Scenario{Terms: []DiceSpec{sc.Terms[i]}, Coefs: []int64{1}, Seeds: sc.Seeds, Spaced: sc.Spaced, Wrap: sc.Wrap, Switches: sc.Switches}
 			c15One(&one, m, res)
 		}
 		if len(res.Violations) > before {
@@ -301,6 +314,37 @@ func c15One(scp *C15Scenario, m *Meter, res *RunResult) {
 		}
 		res.Probe("plain_terms_attainment_checked")
 	}
+	if len(sc.Switches) > 0 {
+		// one long-lived VM, the mode switched between evaluations
+		cfg := CfgSpec{WoD: true, CoC: true, Fate: true, DC: true, Seeded: true, SeedA: sc.Seeds[1], SeedB: sc.Seeds[1] ^ 0x77, DefaultSide: c15DefaultSide}
+		ResetGlobals(sc.Seeds[1])
+		vm := cfg.NewVM()
+		for k, mode := range sc.Switches {
+			vm.Config.DiceMinMode, vm.Config.DiceMaxMode = mode == "min", mode == "max"
+			r := c15EvalOn(vm, expr, nil, m)
+			res.Evals++
+			res.Fault("mode_switch_on_used_vm")
+			if !r.ok {
+				res.Violate("used-vm:not-evaluable", "%q evaluates on fresh VMs in min and max mode, but fails as evaluation %d on a used VM in mode %q: %s\n  modes so far=%q", expr, k+1, mode, r.err, sc.Switches[:k+1])
+				break
+			}
+			switch mode {
+			case "min", "max":
+				want := lo.val
+				if mode == "max" {
+					want = hi.val
+				}
+				if r.draws > 0 || r.moved {
+					res.Violate("mode-consumes-randomness", "%s-mode evaluation %d of %q on a used VM drew %d dice from a generator (generator state changed: %v)\n  modes so far=%q", mode, k+1, expr, r.draws, r.moved, sc.Switches[:k+1])
+				}
+				if r.val != want {
+					res.Violate("used-vm:bound-differs:"+mode, "%q in %s mode gives %d on a fresh VM and %d as evaluation %d on a VM used before under other modes\n  modes so far=%q", expr, mode, want, r.val, k+1, sc.Switches[:k+1])
+				}
+			default:
+				check(fmt.Sprintf("evaluation %d on a used VM after modes %q", k+1, sc.Switches[:k]), r)
+			}
+		}
+	}
 	res.State(HashStr(famKey + fmt.Sprint(len(sc.Terms)) + sc.Wrap))
 	if sc.Wrap != "" {
 		res.Probe("evaluated_in_sub_vm_" + sc.Wrap)
@@ -330,6 +374,13 @@ func c15Shrink(raw json.RawMessage) []json.RawMessage {
 	}
 	if sc.Const != 0 {
 		emit(func(s *C15Scenario) { s.Const = 0 })
+	}
+	if len(sc.Switches) > 0 {
+		emit(func(s *C15Scenario) { s.Switches = nil })
+		for i := range sc.Switches {
+			i := i
+			emit(func(s *C15Scenario) { s.Switches = append(append([]string{}, s.Switches[:i]...), s.Switches[i+1:]...) })
+		}
 	}
 	for i := range sc.Coefs {
 		i := i
@@ -369,7 +420,7 @@ func init() {
 		ID: "C15", Level: "exploration",
 		QuickRuns: 12000, ThoroughRuns: 600000,
 		Gen: c15Gen, Exec: c15Exec, Shrink: c15Shrink,
-		Rule: "one case = an expression sum(c_i * T_i) + c0 with non-negative constants over 1-3 non-exploding dice terms (XdY with every keep/drop/min/max combination from a boundary-biased grid, Fate, CoC bonus/penalty), evaluated in min-mode and max-mode (ledger: zero dice consume a generator; generator bytes unchanged), under 6 real seeded streams, and under forced die vectors (all lowest, all highest, alternating, CoC tens dice at '0'): every result must lie within [min-mode, max-mode]; for plain XdY terms all-lowest / all-highest faces must reproduce the min-mode / max-mode result exactly. distinct = distinct expressions; non-trivial = both modes evaluated to an int",
+		Rule: "in half of the cases the expression is also evaluated 2-5 times on ONE long-lived VM whose roll mode is switched in between (random / min / max in a seeded order): min and max results must equal the fresh-VM bounds and draw nothing, random results must lie in the bracket. one case = an expression sum(c_i * T_i) + c0 with non-negative constants over 1-3 non-exploding dice terms (XdY with every keep/drop/min/max combination from a boundary-biased grid, Fate, CoC bonus/penalty), evaluated in min-mode and max-mode (ledger: zero dice consume a generator; generator bytes unchanged), under 6 real seeded streams, and under forced die vectors (all lowest, all highest, alternating, CoC tens dice at '0'): every result must lie within [min-mode, max-mode]; for plain XdY terms all-lowest / all-highest faces must reproduce the min-mode / max-mode result exactly. distinct = distinct expressions; non-trivial = both modes evaluated to an int",
 		Real: []string{"VM dice instructions, Roll mode switch, RollCommon/RollCoC/RollFate"},
 		Stub: []string{"die faces in forcing runs"},
 		Assumptions: []string{"monotone expressions only: sums of dice terms times non-negative constants"},
